@@ -220,13 +220,14 @@ def main():
             'name': 'tdmssim', 'path': '/verif/tdmssim',
             'serves_properties': sorted(CHECKS),
             'kind_free_text': 'deterministic simulator for a single-threaded file library: simulated disk (SimFS) with '
-                              'event log, descriptor table, short-delivery / EIO / crash / corruption injection; '
+                              'event log, descriptor table, symbolic links, short-delivery / EIO / crash / corruption / failing-open / '
+                              'address-space-limit injection, deterministic thread interleaver; '
                               'independent TDMS encoder + reference model; seeded world generator and scheduler; '
                               'ddmin minimiser; self-contained replay files',
         }],
         'checks': checks,
         'not_applicable': na,
-        'notes': 'Deterministic simulation with fault injection; see DESIGN.md. Every check also fixes the local time zone from the seed and runs a short secondary pass under python -O. ./check <id> --tier quick|thorough; '
+        'notes': 'Deterministic simulation with fault injection; see DESIGN.md. Every check also fixes the local time zone from the seed, runs a short secondary pass under python -O, and runs 6% of its small worlds under an address space limit (RLIMIT_AS = size + 512 MiB). ./check <id> --tier quick|thorough; '
                  'VERIF_SEED, VERIF_BUDGET_S, VERIF_WORKERS, VERIF_REPO are honoured. Exit 0 held / 1 VIOLATION / '
                  '2 HARNESS-ERROR.',
     }
